@@ -20,7 +20,7 @@ CHUNK = 250
 SUB_T = [0.5, 0.25, 0.0625]        # seconds per time sub-tick (case field u = 1, 2, 3)
 SUB_F = 64.0                       # Hz per frequency sub-tick; MAX_FREQUENCY = 78125 sub-ticks (Buffer!FMAXS)
 
-RULE = ("every pair of calls of the TLA+ enumeration (40 geometries of all nine kinds incl. shapes on the edges time 0, "
+RULE = ("every pair of calls of the TLA+ enumeration (46 geometries of all nine kinds incl. shapes on the edges time 0, "
         "frequency 0 and MAX_FREQUENCY; time/frequency buffers 0, 1/2, 1, 2 ticks and beyond the domain, paired with the next "
         "larger setting; negative-buffer combinations) plus random geometries and buffers on a larger lattice; each probed on a "
         "grid of lattice points around the geometry; non-trivial = both buffers non-negative and not both zero")
@@ -222,3 +222,23 @@ def finding_key(obs, clause):
 def nontrivial(o):
     b1, b2 = o["in"]["b1"], o["in"]["b2"]
     return min(b1 + b2) >= 0 and max(b1 + b2) > 0
+
+
+MANIFEST = {
+    "text": ("Buffer.tla states buffer_geometry on an exact sub-tick lattice. TimeStamp/TimeInterval/BoundingBox: closed forms "
+             "with the clamps at time 0, frequency 0 and MAX_FREQUENCY, compared exactly; TLC checks containment, monotonicity, "
+             "domain and exact widening for every catalogue shape under all 625 ordered buffer pairs, and proofs/P_Buffer.tla "
+             "proves the same laws for all integers (TLAPS, 4 obligations). The six shapely kinds: a relation over what the "
+             "binder measures on the returned polygon(s) -- Polygon/MultiPolygon with closed rings, every coordinate inside the "
+             "domain, every vertex and lattice point of the original inside the result (exact rational even-odd ray casting on "
+             "the output coordinates), bounds reaching the widened bounds clipped to the domain (limb numbers compared in TLA+; "
+             "line strings against the inscribed-32-gon bound as well), supersets for comparable buffer pairs, negative buffers "
+             "rejected. TLC enumerates 46 geometries of all nine kinds (incl. shapes on the three domain edges) x 25 buffer "
+             "settings paired with the next larger one + negative combinations; a random driver adds larger lattices; every call "
+             "is executed on the real code and judged by TLC."),
+    "note": ("trusted: TLC, the binder checks/c11.py (encoder; min/max, ring closure and exact point location are generic "
+             "reductions), exact doubles on dyadic units; containment/monotonicity are decided on lattice probe points; slack "
+             "2^-24 sub-tick + 2^-20 of the buffer on bounds; three open findings are matched by specific keys (F16 round caps, "
+             "zero frequency buffer above 2.25 MHz, KeyError for line strings with freq_buffer=0)"),
+    "design_ref": "DESIGN.md section 4 C11",
+}
